@@ -34,7 +34,8 @@ class C20(object):
                          'module.ran.driven_in_stages',
                          'module.ran.with_lag_of_a_synonym_under_generator_reduction',
                          'module.reported_non_convergence_of_a_slow_block',
-                         'generator.refused_a_block_that_defines_the_step_counter')
+                         'generator.refused_a_block_that_defines_the_step_counter',
+                         'module.ran.with_math_functions_in_an_exogenous_path')
 
     def n_cases(self, tier):
         return 120 if tier == 'quick' else 6000
@@ -81,7 +82,13 @@ class C20(object):
             if rng.random() < 0.6:
                 spec['ics'][c['name']] = c['value'] + rng.choice([1.0, -0.5, 2.0])   # k=0 differs from the literal
         spec['style']['comments'] = False
+        if idx % 12 == 3 and spec['exos']:
+            # an exogenous path written with functions of the math module (the block language offers them in every part of a block)
+            e0 = spec['exos'][0]
+            e0['text'] = '[sqrt(4.0)*%r, exp(0.0)*%r] + %r' % (e0['values'][0] / 2.0, e0['values'][1], list(e0['values'][2:]))
+            e0['form'] = 'expr'
         case = {'kind': 'block', 'spec': spec, 'text': G.render(spec), 'gen_reduction': rng.random() < 0.5,
+                'math_in_exogenous_path': idx % 12 == 3 and bool(spec['exos']),
                 'reuse': rng.choice([None, None, 'main_twice', 'other_block_first', 'generate_equations_first'])}
         if idx % 4 == 2 and 'T' not in G.all_value_names(spec) + [d['name'] for d in spec['decos']]:
             # textbook notation: a variable T (taxes) next to the time axis t - names that differ only by case
@@ -271,6 +278,8 @@ class C20(object):
                 rec.count('module.ran.with_own_time_variable_and_lagged_step_counter')
             if case.get('lagged_synonym'):
                 rec.count('module.ran.with_lag_of_a_synonym_under_generator_reduction')
+            if case.get('math_in_exogenous_path'):
+                rec.count('module.ran.with_math_functions_in_an_exogenous_path')
             if not spec['time']:
                 rec.count('module.without_user_time')
             # collect the module's series
